@@ -218,14 +218,14 @@ theorem localLookup_spec (C : Codec) {d : Disk} (h : DiskInv d) (kind : Kind) (h
         exact ⟨h1, h2.trans ht⟩
       · exact ⟨hg, ht⟩
 
-theorem inv_fetchFromProxy (C : Codec) {d : Disk} (h : DiskInv d) {l : Lru} (hl : Inv l)
+theorem inv_fetchCore (C : Codec) {d : Disk} (h : DiskInv d) {l : Lru} (hl : Inv l)
     (ht : (tracked l).Perm (tracked d.lru)) (kind : Kind) (hash : String) (hlen64 : hash.length = 64)
     (size offset : Int) (zstd : Bool) (pg : ProxyGet) (rnd : String)
     (hfresh : ∀ legacy sz, fileLocation kind legacy hash sz rnd ∉ d.files.map Prod.fst) :
-    DiskInv (fetchFromProxy C d l kind hash size offset zstd pg rnd).1 := by
+    DiskInv (fetchCore C d l kind hash size offset zstd pg rnd).1 := by
   obtain ⟨hrel, htr⟩ := inv_release hl size
   have hback : DiskInv { d with lru := release l size } := inv_relru h hrel (by rw [htr]; exact ht)
-  unfold fetchFromProxy
+  unfold fetchCore
   cases pg with
   | error => exact hback
   | notFound => exact hback
@@ -266,6 +266,29 @@ theorem inv_fetchFromProxy (C : Codec) {d : Disk} (h : DiskInv d) {l : Lru} (hl 
         | e500 => exact inv_relru h hci ((hcno (by simp)).trans ht)
         | e507 => exact inv_relru h hci ((hcno (by simp)).trans ht)
         | stuck => exact inv_relru h hci ((hcno (by simp)).trans ht)
+
+theorem inv_fetchFromProxy (C : Codec) {d : Disk} (h : DiskInv d) {l : Lru} (hl : Inv l)
+    (ht : (tracked l).Perm (tracked d.lru)) (kind : Kind) (hash : String) (hlen64 : hash.length = 64)
+    (size offset : Int) (zstd : Bool) (pg : ProxyGet) (rnd : String)
+    (hfresh : ∀ legacy sz, fileLocation kind legacy hash sz rnd ∉ d.files.map Prod.fst) :
+    DiskInv (fetchFromProxy C d l kind hash size offset zstd pg rnd).1 := by
+  unfold fetchFromProxy
+  cases pg with
+  | error => exact inv_fetchCore C h hl ht kind hash hlen64 size offset zstd .error rnd hfresh
+  | notFound => exact inv_fetchCore C h hl ht kind hash hlen64 size offset zstd .notFound rnd hfresh
+  | found s fs =>
+    simp only
+    split
+    · have hi2 := (inv_reserve hl fs).1
+      have ht2 := tracked_reserve l fs
+      cases hr : reserve l fs with
+      | mk lr rerr =>
+        rw [hr] at hi2 ht2
+        simp only at hi2 ht2 ⊢
+        cases rerr with
+        | some e => exact inv_relru h hi2 (ht2.trans ht)
+        | none => exact inv_fetchCore C h hi2 (ht2.trans ht) kind hash hlen64 fs offset zstd (.found s fs) rnd hfresh
+    · exact inv_fetchCore C h hl ht kind hash hlen64 size offset zstd (.found s fs) rnd hfresh
 
 /-- **get keeps the invariant on every path**: guards, local hit, failed local entry dropped,
     reservation refused, every kind of back-end fault, commit refused, successful fetch. -/
